@@ -1,5 +1,5 @@
 """Modular calls (callee contract only) and the per-function verification driver."""
-import ast
+import ast, os
 
 import z3
 
@@ -288,6 +288,8 @@ def verify_function(eng, key, c, fdef=None, module=None):
             if fdef.args.kwonlyargs or fdef.args.kwarg:
                 raise Unsupported('keyword-only / ** parameters')
     except Unsupported as u:
+        if os.environ.get('PYVC_TRACE'):
+            import traceback; traceback.print_exc()
         res.status, res.reason = 'unsupported', str(u)
         return res
     except Exception as e:
@@ -309,6 +311,8 @@ def verify_function(eng, key, c, fdef=None, module=None):
         except Infeasible:
             res.infeasible += 1
         except Unsupported as u:
+            if os.environ.get('PYVC_TRACE'):
+                import traceback; traceback.print_exc()
             res.status, res.reason = 'unsupported', str(u)
             return res
         except RecursionError:
